@@ -1,5 +1,6 @@
 import FastorModel.Proofs.Layout
 import FastorModel.Proofs.MapAlias
+import FastorModel.Proofs.MapAliasWide
 /-
 # C20 — wrapped / reshaped tensors are true aliases; layout conversions are exact inverses
 
@@ -413,7 +414,7 @@ def owning (nm : Name) (al : Bool) : Name := { dims := nm.dims, isMap := false, 
     operation leaves when issued on an owning tensor of the map's shape holding the same values -/
 theorem map_step_eq_owning_step (ofInt : Int → α) (cst : Nat → α) (opnd : Nat → Nat → α) (tmp0 : Nat → α)
     (ex : Nat) (hex : ex ≤ 64) (nm : Name) (hmap : nm.isMap = true) (hn : prod nm.dims < 2 ^ 64) (al : Bool)
-    (via : Via) (o : Op) (s : St α) :
+    (via : Via) (o : Op) (s : MapAlias.St α) :
     (step ofInt cst opnd tmp0 (2 ^ ex) nm via o s).1 = (step ofInt cst opnd tmp0 (2 ^ ex) (owning nm al) via o s).1 := by
   have hpass := fun (opnd' : Nat → Nat → α) op e m => funext (passInPlace_spec ofInt opnd' op e (prod nm.dims) ex hn hex m)
   have htemp := fun e cur dst => funext (assignViaTemp_spec ofInt opnd e (prod nm.dims) ex hn hex cur dst tmp0)
@@ -466,7 +467,7 @@ theorem map_step_eq_owning_step (ofInt : Int → α) (cst : Nat → α) (opnd : 
     holding the same values -/
 theorem map_is_alias (ofInt : Int → α) (cst : Nat → α) (opnd : Via → Nat → Nat → α) (tmp0 : Nat → α)
     (ex : Nat) (hex : ex ≤ 64) (mapN srcN : Name) (hmap : mapN.isMap = true) (hn : prod mapN.dims < 2 ^ 64) (al : Bool)
-    (prog : Prog) (s : St α) :
+    (prog : Prog) (s : MapAlias.St α) :
     runShared ofInt cst opnd tmp0 (2 ^ ex) mapN srcN prog s =
       runShared ofInt cst opnd tmp0 (2 ^ ex) (owning mapN al) srcN prog s := by
   induction prog generalizing s with
@@ -486,13 +487,13 @@ def Ev.isAligned : Ev → Bool
 
 /-- **aligned_flag_irrelevant**: the state after a step does not depend on the value of `is_aligned()` -/
 theorem aligned_flag_irrelevant (ofInt : Int → α) (cst : Nat → α) (opnd : Nat → Nat → α) (tmp0 : Nat → α) (V : Nat)
-    (nm : Name) (b : Bool) (via : Via) (o : Op) (s : St α) :
+    (nm : Name) (b : Bool) (via : Via) (o : Op) (s : MapAlias.St α) :
     (step ofInt cst opnd tmp0 V { nm with aligned := b } via o s).1 = (step ofInt cst opnd tmp0 V nm via o s).1 := by
   cases o <;> simp only [step] <;> (try split) <;> (try split) <;> rfl
 
 /-- a step through a name whose `is_aligned()` is false (every map) issues no aligned access -/
 theorem map_never_aligned (ofInt : Int → α) (cst : Nat → α) (opnd : Nat → Nat → α) (tmp0 : Nat → α) (V : Nat)
-    (nm : Name) (hal : nm.aligned = false) (via : Via) (o : Op) (s : St α) :
+    (nm : Name) (hal : nm.aligned = false) (via : Via) (o : Op) (s : MapAlias.St α) :
     ∀ ev ∈ (step ofInt cst opnd tmp0 V nm via o s).2, Ev.isAligned ev = false := by
   have hpe : ∀ b n, ∀ ev ∈ passEvents b false n V, Ev.isAligned ev = false := by
     intro b n ev hev
@@ -536,5 +537,129 @@ example : (step (α := Int) (fun k => k) (fun _ => 0) (fun w p => (w : Int) * 10
     { dims := [7], isMap := true, aligned := false } .map
     (.expr .set (.bin .sub (.bin .mul (.t 0) (.t 0)) (.t 1))) { buf := fun p => (p : Int) + 1, rd := fun _ _ => 0 }).1.buf 5
     = 6 * 6 - 105 := by decide
+
+/-! ### the enlarged alphabet: any number of names, views, scalar assignment, reductions, staged right-hand sides -/
+
+section wide
+variable {α : Type} [Add α] [Sub α] [Mul α] [Neg α] [Div α] [Zero α]
+open Fastor.ViewWrite
+
+/-- side conditions of an operation issued on a tensor of extents `dims`: a view write selects in-bounds positions
+    with positive steps and non-empty extents (C05's `InBounds`) -/
+def Op2.Valid (dims : List Nat) : Op2 → Prop
+  | .viewW axs _ _ => C05.InBounds dims axs ∧ dims.length = axs.length ∧ axs ≠ [] ∧ ∀ a ∈ axs, 0 < a.ext ∧ a.ext < 2 ^ 64
+  | _ => True
+
+theorem odo_nodup (ex : Nat) (dims : List Nat) (axs : List Ax) (hin : C05.InBounds dims axs) (hlen : dims.length = axs.length)
+    (hne : axs ≠ []) (hext : ∀ a ∈ axs, 0 < a.ext) (cstep : Nat) (hcs : cstep = 2 ^ ex ∨ cstep = 1) :
+    ((lanesOf (odoIters (2 ^ ex) dims axs false cstep)).map (·.1)).Nodup := by
+  have hV : 0 < 2 ^ ex := Nat.pow_pos (by omega)
+  rw [odo_lanes (2 ^ ex) hV dims axs hne hlen hext cstep hcs, incs_one, List.map_map]
+  have := C05.pos_nodup dims axs hin 0
+  simpa [Function.comp_def] using this
+
+/-- generic n-D view class versus the class an owning tensor of that rank gets: same memory -/
+theorem iters_cls_irrelevant (ex : Nat) (hex : ex ≤ 64) (dims : List Nat) (axs : List Ax) (cstep : Nat)
+    (hcs : cstep = 2 ^ ex ∨ cstep = 1) (hin : C05.InBounds dims axs) (hlen : dims.length = axs.length) (hne : axs ≠ [])
+    (hext : ∀ a ∈ axs, 0 < a.ext ∧ a.ext < 2 ^ 64) (op : WOp) (r : Nat → α) (m : Nat → α) :
+    exec op (fun _ => r) (itersOf .dynN (2 ^ ex) false dims axs false cstep) m =
+      exec op (fun _ => r) (itersOf (rankCls dims.length) (2 ^ ex) false dims axs false cstep) m := by
+  have hpos : ∀ a ∈ axs, 0 < a.ext := fun a ha => (hext a ha).1
+  have hnd := odo_nodup ex dims axs hin hlen hne hpos cstep hcs
+  match dims, axs, hlen, hin, hne, hext, hpos, hnd with
+  | [d], [a], _, _, _, hext, hpos, hnd =>
+    have hl := lanes_rank1 ex hex d a (hext a (by simp)).2 (hpos a (by simp)) cstep hcs
+    simp only [itersOf, rankCls, List.length_cons, List.length_nil]
+    exact exec_eq_of_lanes op r _ _ m hl (by rw [← hl]; exact hnd)
+  | [M, N], [a0, a1], _, _, _, hext, hpos, hnd =>
+    have hl := lanes_rank2 ex hex M N a0 a1 (hext a1 (by simp)).2 (hpos a0 (by simp)) (hpos a1 (by simp)) cstep hcs
+    simp only [itersOf, rankCls, List.length_cons, List.length_nil]
+    exact exec_eq_of_lanes op r _ _ m hl (by rw [← hl]; exact hnd)
+  | [], axs, hlen, _, hne, _, _, _ =>
+    exact absurd (List.eq_nil_of_length_eq_zero hlen.symm) hne
+  | d0 :: d1 :: d2 :: ds, axs, _, _, _, _, _, _ =>
+    simp only [rankCls, List.length_cons]
+
+/-- a write through a strided view of a map (generic n-D view class) leaves the memory that the same write leaves
+    through the view class an owning tensor of that shape gets (1-D / 2-D specialisations) -/
+theorem viewW_map_eq_owning (ex : Nat) (hex : ex ≤ 64) (nm : Name) (hmap : nm.isMap = true) (al : Bool)
+    (axs : List Ax) (op : WOp) (rhs : VRhs) (r : Nat → α) (m : Nat → α)
+    (hv : Op2.Valid nm.dims (.viewW axs op rhs)) :
+    exec op (fun _ => r) (viewIters (2 ^ ex) nm axs rhs) m =
+      exec op (fun _ => r) (viewIters (2 ^ ex) (owning nm al) axs rhs) m := by
+  obtain ⟨hin, hlen, hne, hext⟩ := hv
+  have hcs : rhs.cstep (2 ^ ex) = 2 ^ ex ∨ rhs.cstep (2 ^ ex) = 1 := by cases rhs <;> simp [VRhs.cstep]
+  simp only [viewIters, viewCls, hmap, if_true, owning, Bool.false_eq_true, if_false]
+  exact iters_cls_irrelevant ex hex nm.dims axs _ hcs hin hlen hne hext op r m
+
+/-- **one step of the enlarged alphabet** through a map = the same step on an owning tensor of the map's shape -/
+theorem step2_map_eq_owning (ofInt : Int → α) (cst : Nat → α) (opnd : Nat → Nat → α) (tmp0 : Nat → α)
+    (ex : Nat) (hex : ex ≤ 64) (stagedFn : Nat → (Nat → α) → Nat → α) (nm : Name) (hmap : nm.isMap = true)
+    (hn : prod nm.dims < 2 ^ 64) (al : Bool) (k : Nat) (o : Op2) (hv : Op2.Valid nm.dims o) (s : St2 α) :
+    (step2 ofInt cst opnd tmp0 (2 ^ ex) stagedFn nm k o s).1 =
+      (step2 ofInt cst opnd tmp0 (2 ^ ex) stagedFn (owning nm al) k o s).1 := by
+  have hpass := fun (opnd' : Nat → Nat → α) op e m => funext (passInPlace_spec ofInt opnd' op e (prod nm.dims) ex hn hex m)
+  unfold passInPlace at hpass
+  have hrange := fun (g : Nat → α) (m : Nat → α) => funext (fun q => by
+    have := applyWrites_map_range (α := α) 0 (prod nm.dims) g m q
+    simpa using this : ∀ q, applyWrites ((List.range (prod nm.dims)).map fun p => (p, g p)) m q = if q < prod nm.dims then g q else m q)
+  cases o with
+  | base b =>
+    have h := map_step_eq_owning_step ofInt cst opnd tmp0 ex hex nm hmap hn al .map b { buf := s.buf, rd := fun _ => s.rd k }
+    simp only [step2]
+    rw [h]
+  | sassign c =>
+    simp only [step2, owning, hmap, if_true, Bool.false_eq_true, if_false]
+    congr 1
+    rw [hpass, hrange]
+    funext q; simp [AOp.ap, evalS, envOf]
+  | windex idx c => simp [step2, owning]
+  | viewW axs op rhs =>
+    simp only [step2]
+    rw [viewW_map_eq_owning ex hex nm hmap al axs op rhs _ s.buf hv]
+  | viewR axs => simp [step2, owning]
+  | reduce => simp [step2, owning]
+  | staged op tag =>
+    cases op with
+    | set =>
+      have e1 : (AOp.set == AOp.set) = true := rfl
+      simp only [step2, owning, hmap, e1, Bool.not_true, Bool.and_false, Bool.false_eq_true, if_false, Bool.not_false,
+        Bool.and_true, if_true]
+      congr 1
+      rw [hpass, hrange]
+      funext q; simp [AOp.ap, evalS, envOf]
+    | add => have e : (AOp.add == AOp.set) = false := rfl; simp [step2, owning, hmap, e]
+    | sub => have e : (AOp.sub == AOp.set) = false := rfl; simp [step2, owning, hmap, e]
+    | mul => have e : (AOp.mul == AOp.set) = false := rfl; simp [step2, owning, hmap, e]
+
+/-- **map_is_alias over the enlarged alphabet** (history theorem): for every program — operations of the enlarged
+    alphabet issued in any order through any of the names of the one storage — replacing any subset of the maps by
+    owning tensors of the same shape holding the same values leaves the same final state (buffer, read targets,
+    reduction result) -/
+theorem map_is_alias_wide (ofInt : Int → α) (cst : Nat → α) (opnd : Nat → Nat → Nat → α) (tmp0 : Nat → α)
+    (ex : Nat) (hex : ex ≤ 64) (stagedFn : Nat → Nat → (Nat → α) → Nat → α) (names names' : Nat → Name) (al : Bool)
+    (hnames : ∀ k, names' k = names k ∨ ((names k).isMap = true ∧ names' k = owning (names k) al))
+    (hn : ∀ k, prod (names k).dims < 2 ^ 64)
+    (prog : Prog2) (hvalid : ∀ ko ∈ prog, Op2.Valid (names ko.1).dims ko.2) (s : St2 α) :
+    runNames ofInt cst opnd tmp0 (2 ^ ex) stagedFn names prog s =
+      runNames ofInt cst opnd tmp0 (2 ^ ex) stagedFn names' prog s := by
+  induction prog generalizing s with
+  | nil => rfl
+  | cons ko rest ih =>
+    obtain ⟨k, o⟩ := ko
+    simp only [runNames]
+    have hv := hvalid (k, o) (by simp)
+    have hrest : ∀ ko ∈ rest, Op2.Valid (names ko.1).dims ko.2 := fun ko h => hvalid ko (List.mem_cons_of_mem _ h)
+    rcases hnames k with h | ⟨hm, h⟩
+    · rw [h, ih hrest]
+    · rw [h, ← step2_map_eq_owning ofInt cst (opnd k) tmp0 ex hex (stagedFn k) (names k) hm (hn k) al k o hv s, ih hrest]
+
+/-- non-vacuity: `m(seq(0,4,2), all) += 3` through a 4x5 map is a valid view write -/
+example : Op2.Valid [4, 5] (.viewW [⟨0, 2, 2⟩, ⟨0, 1, 5⟩] .add (.scalar 0)) := by
+  refine ⟨?_, rfl, by simp, ?_⟩
+  · simp only [C05.InBounds]; decide
+  · intro a ha; simp at ha; rcases ha with rfl | rfl <;> decide
+
+end wide
 
 end Fastor.C20
